@@ -248,6 +248,7 @@ def replay_file(mod, path, excludes=()):
 def run_check(check_id, tier, seed, replay=None):
     t0 = time.time()
     check_id = check_id.upper()
+    os.environ["VERIF_TIER_ACTIVE"] = tier
     mod = load_check(check_id)
     known = load_known(check_id)
     violations = []  # (kind, replay path)
@@ -309,7 +310,9 @@ def run_check(check_id, tier, seed, replay=None):
     import multiprocessing as mp
 
     nshards = int(os.environ.get("VERIF_SHARDS", getattr(mod, "SHARDS", 16)))
-    total = int(mod.budget(tier))
+    if tier == "thorough":
+        nshards *= int(getattr(mod, "THOROUGH_SHARD_FACTOR", 4))
+    total = int(os.environ.get("VERIF_BUDGET") or mod.budget(tier))
     per = max(1, (total + nshards - 1) // nshards)
 
     ctx = mp.get_context("fork")
@@ -431,6 +434,9 @@ def run_check(check_id, tier, seed, replay=None):
     with open(os.path.join(EVIDENCE_DIR, f"{check_id}.json"), "w") as f:
         json.dump(evidence, f, indent=1, default=str)
 
+    walls = sorted(round(r.get("wall", 0), 1) for r in results)
+    if os.environ.get("VERIF_DEBUG"):
+        print("shard walls:", walls)
     print(
         f"{check_id} tier={tier} seed={seed}: {evidence['coverage']['evaluations']} cases, "
         f"{len(agg['nontrivial'])} distinct non-trivial, status={dict(agg['status'])}, "
